@@ -214,7 +214,7 @@ def clock_plan(rng, limit, K):
 
 def c14_plans(rng, K, limit, tier):
     """All single faults, plus a seeded sample of pairs."""
-    kinds = list(STATUS_FAULTS)
+    kinds = list(STATUS_FAULTS) + ['crash']
     if limit is not None and limit <= 1e9:
         kinds += ['tl-incumbent', 'tl-no-incumbent']
     plans = []
